@@ -20,6 +20,22 @@
 //!   * `fork`: a second 2xx for the same INVITE with another To-tag, Contact and Record-Route list: a second
 //!     dialog out of the same builder and transaction, with 1..3 requests of its own, judged against a second
 //!     reference dialog (same request text, the second response text) with a CSeq space of its own.
+//!   * `early_contact` / `early_rr` (Initiator, half of the cases whose peer sends a provisional above 100): that
+//!     provisional carries the To-tag of the later 2xx, a Contact and a Record-Route list - an EARLY dialog which
+//!     the 2xx confirms.  The 1xx's Contact is RELATED to the 2xx's the way real peers' are: the same header
+//!     value, the same address with URI parameters removed / added / changed in value (`gr`, `transport`, `ob`
+//!     ...), another user part, another port, or an unrelated URI; the 1xx's Record-Route list is the 2xx's,
+//!     its reverse, a prefix, a superset, absent, or unrelated.  The reference dialog is built from the 2xx
+//!     alone (RFC 3261 13.2.2.4: remote target and route set are recomputed from the 2xx).
+//! and - both roles, wherever a `Session` exists - TRANSPORT TROUBLE while ezk itself creates and sends a request
+//! inside the dialog (`SendFault`): the `Transport::send` call for the BYE of `Session::terminate()` (0..2
+//! calls in a row) or for the refresh re-INVITE of `RefreshNeeded::process_default()` stays pending for a while
+//! and then fails with an io::Error (nothing reaches the wire; the application calls `terminate()` /
+//! `process_default()` again) or returns late.  While the call is pending, and between a failure and the
+//! repetition, other tasks of the application create and send 0..3 requests on the shared dialog
+//! (`Session::dialog` is a pub `Arc<Dialog>`).  The transport is the world's mock datagram transport behind a
+//! gate (`GateTp`) that the case opens; a late success hands its bytes to the wire log when the call starts,
+//! so wire order = creation order throughout.
 //! Sub `uas-codes` enumerates every status code through `create_response`.
 //!
 //! Oracle: `RefDialog::check_request` (Call-ID, From/To URI + tag, Request-URI, Route, Max-Forwards) per created
@@ -28,12 +44,18 @@
 //! once; one found only in the second dialog gets `uac-fork-` in its signature.  A first request that is not
 //! above the creating INVITE is named `first-not-above-renumbered-invite` when an earlier attempt of that INVITE
 //! carried another number (the counter evidently did not follow the repetition), `first-not-above-invite` otherwise.
+//! The CSeq sequence that is judged consists of the requests that reached the wire plus the ones the threads
+//! created; a request whose only `send` call failed was never seen by the peer and is left out (so re-using ITS
+//! number is accepted).  A number that fails to increase after such a failure is reported as
+//! `not-increasing-after-failed-send` (the counter evidently was moved back), otherwise `not-increasing`.
 //!
 //! Not asserted: anything about the INVITE attempts themselves (whether a repetition gets a new CSeq, keeps
 //! Call-ID / From-tag, what happens to the early dialogs of a rejected attempt), the ACKs the transaction layer
 //! sends for the rejections (they share the INVITE's branch and are not "created inside a dialog"), any relation
 //! between the CSeq numbers of the two dialogs of a fork, display names, the Contact of created requests, the
-//! strict-routing rewrite (both forms accepted), requests inside unconfirmed early dialogs (C13).
+//! strict-routing rewrite (both forms accepted), requests inside unconfirmed early dialogs (C13), what
+//! `terminate()` / `process_default()` return after a failed send beyond "an error", the number of the request
+//! whose send failed, URI headers (`?h=v`) in a Contact (not generated).
 
 use super::c06::ChannelLayer;
 use crate::engine::*;
@@ -42,7 +64,7 @@ use crate::world::*;
 use proptest::prelude::*;
 use serde::{Deserialize, Serialize};
 use sip_core::transaction::TsxResponse;
-use sip_core::transport::TargetTransportInfo;
+use sip_core::transport::{Direction, TargetTransportInfo, TpHandle, Transport};
 use sip_core::{Endpoint, Request};
 use sip_types::header::typed::Contact;
 use sip_types::uri::NameAddr;
@@ -86,6 +108,26 @@ pub struct Ops {
     pub threads: bool,
     /// finally `Session::terminate()` (only where a Session exists)
     pub terminate: bool,
+    /// transport trouble during `Session::terminate()`: entry i describes what happens to the `send` of the BYE
+    /// of the i-th `terminate()` call.  After an entry with `fail` the application calls `terminate()` again; an
+    /// entry without `fail` (the BYE goes out, the call returns late) or the end of the list ends the flow.
+    #[serde(default)]
+    pub term_faults: Vec<SendFault>,
+}
+
+/// One `Transport::send` call that stays pending for a while (the datagram socket is not writable, a
+/// connection is being re-established ...) and then fails with an io::Error or succeeds, while other tasks of
+/// the application keep using the shared dialog (`Session::dialog` is a pub `Arc<Dialog>`).
+#[derive(Serialize, Deserialize, Clone, Debug, Hash)]
+pub struct SendFault {
+    /// the send fails (nothing reaches the wire); otherwise the bytes go out and the call returns late
+    pub fail: bool,
+    /// virtual time the call stays pending
+    pub pending_ms: u16,
+    /// requests (indices into METHODS) another task creates on the dialog and sends while the call is pending
+    pub during: Vec<u8>,
+    /// requests created and sent after the failed call returned, before the application tries again
+    pub after: Vec<u8>,
 }
 
 #[derive(Serialize, Deserialize, Clone, Debug, Hash)]
@@ -144,6 +186,18 @@ pub struct UacCase {
     /// Record-Route): a second dialog out of the same builder, with requests of its own
     #[serde(default)]
     pub fork: Option<Fork>,
+    /// Initiator with an early dialog (see `early_flow`): how the Contact of the 1xx relates to the Contact of
+    /// the 2xx that confirms the dialog, see `early_contact_value` (0 = an unrelated URI)
+    #[serde(default)]
+    pub early_contact: u8,
+    /// ... and how the Record-Route list of the 1xx relates to the one of the 2xx, see `early_rr_values`
+    /// (0 = one unrelated entry)
+    #[serde(default)]
+    pub early_rr: u8,
+    /// refresh flow only: the `send` of the refresh re-INVITE inside `RefreshNeeded::process_default` stays
+    /// pending and fails (the application then runs `process_default` again) or succeeds late
+    #[serde(default)]
+    pub refresh_fault: Option<SendFault>,
     pub ops: Ops,
     pub rng: u8,
 }
@@ -380,13 +434,57 @@ fn g_rr() -> BoxedStrategy<Vec<String>> {
         .boxed()
 }
 
+/// one pending `send` call; `fail` as given; mostly with requests created meanwhile
+fn g_send_fault(fail: bool, with_after: bool) -> BoxedStrategy<SendFault> {
+    (
+        prop_oneof![1 => Just(1u16), 3 => 2u16..=400],
+        prop_oneof![
+            1 => Just(vec![]),
+            3 => prop::collection::vec(0u8..METHODS.len() as u8, 1..=1),
+            2 => prop::collection::vec(0u8..METHODS.len() as u8, 2..=3),
+        ],
+        if with_after {
+            prop_oneof![2 => Just(vec![]), 1 => prop::collection::vec(0u8..METHODS.len() as u8, 1..=2)].boxed()
+        } else {
+            Just(vec![]).boxed()
+        },
+    )
+        .prop_map(move |(pending_ms, during, after)| SendFault {
+            fail,
+            pending_ms,
+            during,
+            after,
+        })
+        .boxed()
+}
+
+/// what happens to the BYE of the successive `Session::terminate()` calls: 0..=2 failing sends (the
+/// application tries again after each), optionally a last one that succeeds late
+fn g_term_faults() -> BoxedStrategy<Vec<SendFault>> {
+    prop_oneof![
+        3 => Just(vec![]),
+        3 => g_send_fault(true, true).prop_map(|a| vec![a]),
+        1 => (g_send_fault(true, true), g_send_fault(true, true)).prop_map(|(a, b)| vec![a, b]),
+        1 => g_send_fault(false, false).prop_map(|a| vec![a]),
+        1 => (g_send_fault(true, true), g_send_fault(false, false)).prop_map(|(a, b)| vec![a, b]),
+    ]
+    .boxed()
+}
+
 fn g_ops() -> BoxedStrategy<Ops> {
     (
         prop::collection::vec(0u8..METHODS.len() as u8, 1..=10),
         prop_oneof![3 => Just(false), 1 => Just(true)],
         prop_oneof![3 => Just(false), 1 => Just(true)],
+        g_term_faults(),
     )
-        .prop_map(|(methods, threads, terminate)| Ops { methods, threads, terminate })
+        .prop_map(|(methods, threads, terminate, term_faults)| Ops {
+            methods,
+            threads,
+            terminate,
+            // transport trouble of the BYE needs a terminate()
+            term_faults: if terminate { term_faults } else { vec![] },
+        })
         .boxed()
 }
 
@@ -442,7 +540,11 @@ pub fn uas_strategy() -> BoxedStrategy<UasCase> {
         any::<u8>(),
     )
         .prop_map(
-            |(((fd, fu, fb), ftag, fextra), (td, tu, tb), call_id, cseq, contact, (rr, rr_layout, names), (lcd, lcu), (provisionals, final_code, acceptor), ops, rng)| {
+            |(((fd, fu, fb), ftag, fextra), (td, tu, tb), call_id, cseq, contact, (rr, rr_layout, names), (lcd, lcu), (provisionals, final_code, acceptor), mut ops, rng)| {
+                if !(acceptor && matches!(final_code, Some(200..=299))) {
+                    // no Session, no terminate()
+                    ops.term_faults.clear();
+                }
                 UasCase {
                     from: fromto_value(&fd, &fu, fb, Some(&ftag), fextra),
                     to: fromto_value(&td, &tu, tb, None, ""),
@@ -497,6 +599,7 @@ pub fn uas_code_cases(_tier: Tier) -> Vec<UasCase> {
                         methods: vec![0],
                         threads: false,
                         terminate: false,
+                        term_faults: vec![],
                     },
                     rng: 0,
                 });
@@ -576,6 +679,100 @@ fn g_fork() -> BoxedStrategy<Option<Fork>> {
     .boxed()
 }
 
+pub const EARLY_CONTACT_KINDS: u8 = 8;
+pub const EARLY_RR_KINDS: u8 = 6;
+
+/// Contact header value of the 1xx that creates the early dialog, as a function of the Contact of the 2xx that
+/// later confirms it.  A peer's provisional and final Contact are seldom unrelated: usually the same URI, or
+/// the same address with parameters added / removed / changed (GRUU `gr`, `transport`, `ob` ...).
+///   0 unrelated URI                      1 the very header value of the 2xx
+///   2 the 2xx's URI without URI parameters            3 the 2xx's URI plus a parameter the 2xx lacks
+///   4 the 2xx's address with `;transport=tcp` as only parameter (other value / parameter missing in the 2xx)
+///   5 the 2xx's URI, every parameter value changed    6 the 2xx's URI, other user part
+///   7 the 2xx's URI, other port
+fn early_contact_value(kind: u8, final_contact: &str) -> String {
+    let fixed = "<sip:early-only@192.0.2.250:5999>".to_string();
+    let Some(na) = rd::parse_name_addr(final_contact) else {
+        return fixed;
+    };
+    // generated Contact URIs: scheme:[user@]host[:port]*(;param), no headers
+    let (base, params) = match na.uri.find(';') {
+        Some(p) => (na.uri[..p].to_string(), na.uri[p..].to_string()),
+        None => (na.uri.clone(), String::new()),
+    };
+    let Some(parts) = rd::split_uri(&base) else {
+        return fixed;
+    };
+    let rebuild = |user: Option<&str>, port: Option<&str>| -> String {
+        let mut u = format!("{}:", parts.scheme);
+        if let Some(user) = user {
+            u.push_str(user);
+            u.push('@');
+        }
+        u.push_str(&parts.host);
+        if let Some(p) = port {
+            u.push(':');
+            u.push_str(p);
+        }
+        u
+    };
+    match kind {
+        1 => final_contact.to_string(),
+        2 => format!("<{base}>"),
+        3 => format!("<{base}{params};x-early=1>"),
+        4 => format!("<{base};transport=tcp>"),
+        5 => {
+            let changed: String = params
+                .split(';')
+                .filter(|p| !p.is_empty())
+                .map(|p| match p.find('=') {
+                    // (an maddr value has to stay a host)
+                    Some(i) if p[..i].eq_ignore_ascii_case("maddr") => ";maddr=192.0.2.201".to_string(),
+                    Some(i) => format!(";{}=e{}", &p[..i], &p[i + 1..]),
+                    None => format!(";{p}=e"),
+                })
+                .collect();
+            format!("<{base}{changed}>")
+        }
+        6 => {
+            let user = match &parts.user {
+                Some(u) => format!("early-{u}"),
+                None => "early".to_string(),
+            };
+            format!("<{}{params}>", rebuild(Some(&user), parts.port.as_deref()))
+        }
+        7 => {
+            let port = match parts.port.as_deref() {
+                Some("5999") => "5998",
+                _ => "5999",
+            };
+            format!("<{}{params}>", rebuild(parts.user.as_deref(), Some(port)))
+        }
+        _ => fixed,
+    }
+}
+
+/// Record-Route values of the 1xx that creates the early dialog, as a function of the list of the 2xx:
+///   0 one unrelated entry   1 the same list   2 the same list reversed   3 none
+///   4 the same list below one more entry      5 only the first entry of the list
+fn early_rr_values(kind: u8, final_rr: &[String]) -> Vec<String> {
+    let extra = "<sip:early-only-proxy.example.com;lr>".to_string();
+    match kind {
+        1 => final_rr.to_vec(),
+        2 => final_rr.iter().rev().cloned().collect(),
+        3 => vec![],
+        4 => std::iter::once(extra).chain(final_rr.iter().cloned()).collect(),
+        5 => final_rr.iter().take(1).cloned().collect(),
+        _ => vec![extra],
+    }
+}
+
+/// the provisional responses above 100 of the dialog-creating attempt carry a To-tag: an EARLY dialog that the
+/// 2xx confirms (Initiator only; half of the cases with such a response)
+fn early_flow(case: &UacCase) -> bool {
+    case.initiator && case.rng % 2 == 0 && case.peer_provisionals.iter().any(|c| *c > 100)
+}
+
 pub fn uac_strategy() -> BoxedStrategy<UacCase> {
     (
         (g_display_api(), g_fromto_uri(false)),
@@ -589,12 +786,19 @@ pub fn uac_strategy() -> BoxedStrategy<UacCase> {
         ),
         (g_rr(), any::<u8>()),
         any::<bool>(),
-        prop_oneof![2 => Just(None), 1 => (prop_oneof![Just(90u32), Just(120u32), Just(1800u32)], any::<bool>()).prop_map(Some)],
-        g_ops(),
+        (
+            prop_oneof![2 => Just(None), 1 => (prop_oneof![Just(90u32), Just(120u32), Just(1800u32)], any::<bool>()).prop_map(Some)],
+            prop_oneof![
+                2 => Just(None),
+                1 => g_send_fault(true, false).prop_map(Some),
+                1 => g_send_fault(false, false).prop_map(Some),
+            ],
+        ),
+        (g_ops(), 0u8..EARLY_CONTACT_KINDS, 0u8..EARLY_RR_KINDS),
         any::<u8>(),
     )
         .prop_map(
-            |((ld, lu), (lcd, lcu), (tsel, mut prior, mut fork), (peer_provisionals, code, to_tag, peer_contact), (rr, rr_layout), initiator, refresh, ops, rng)| {
+            |((ld, lu), (lcd, lcu), (tsel, mut prior, mut fork), (peer_provisionals, code, to_tag, peer_contact), (rr, rr_layout), initiator, (refresh, refresh_fault), (mut ops, early_contact, early_rr), rng)| {
                 // the second branch of a fork is another UAS: its tag differs from the first one's
                 if let Some(f) = fork.as_mut() {
                     if f.to_tag == to_tag {
@@ -619,6 +823,11 @@ pub fn uac_strategy() -> BoxedStrategy<UacCase> {
                 } else {
                     TARGETS_DIRECT[pick_idx(tsel, TARGETS_DIRECT.len())]
                 };
+                if !initiator {
+                    // no Session, no terminate()
+                    ops.term_faults.clear();
+                }
+                let refresh = if initiator { refresh } else { None };
                 UacCase {
                     local_display: ld,
                     local_uri: lu,
@@ -632,9 +841,12 @@ pub fn uac_strategy() -> BoxedStrategy<UacCase> {
                     rr,
                     rr_layout,
                     initiator,
-                    refresh: if initiator { refresh } else { None },
+                    refresh,
                     prior,
                     fork,
+                    early_contact,
+                    early_rr,
+                    refresh_fault: if refresh.is_some() { refresh_fault } else { None },
                     ops,
                     rng,
                 }
@@ -752,7 +964,42 @@ pub struct Observed {
     pub fork_response: Option<WireMsg>,
     pub fork_start: Option<usize>,
     pub fork_sent: usize,
+    /// position (among the requests after the INVITE attempts) of the first request `do_ops` created
+    pub ops_start: usize,
+    /// requests created and sent by other tasks while a `send` call of ezk was pending / after it failed
+    pub window_sent: usize,
+    /// `send` calls of ezk that were made to fail
+    pub failed_sends: usize,
+    /// position (as above) of the first request created after a `send` call of ezk was made to fail
+    pub after_failed_send: Option<usize>,
+    /// refresh flow: positions (as above) of the refresh re-INVITE and of its ACK
+    pub refresh_pos: Option<(usize, usize)>,
     pub harness: Vec<String>,
+}
+
+impl Observed {
+    fn new() -> Self {
+        Observed {
+            wire: vec![],
+            local_tag: None,
+            peer_response: None,
+            created: Created::default(),
+            had_dialog: false,
+            terminate_sent: false,
+            refresh_after: None,
+            refresh_cseq_probe: None,
+            creating_invite: None,
+            fork_response: None,
+            fork_start: None,
+            fork_sent: 0,
+            ops_start: 0,
+            window_sent: 0,
+            failed_sends: 0,
+            after_failed_send: None,
+            refresh_pos: None,
+            harness: vec![],
+        }
+    }
 }
 
 /// What `do_ops` did
@@ -858,7 +1105,7 @@ pub fn run_uas(case: &UasCase) -> Observed {
     let case = case.clone();
     run_world(case.rng as u64, |clock| async move {
         let log = WireLog::new(clock);
-        let (tp, _) = mock_datagram(&log, "UDP", false, false, "10.0.0.1:5060");
+        let (tp, gate) = gated_datagram(&log);
         let rec = Recorder::new(clock);
         let (tx, mut rx) = mpsc::unbounded_channel();
         let mut b = offline_builder();
@@ -868,21 +1115,7 @@ pub fn run_uas(case: &UasCase) -> Observed {
         b.add_unmanaged_transport(tp.clone());
         let endpoint = b.build();
         let peer: SocketAddr = PEER.parse().unwrap();
-        let mut obs = Observed {
-            wire: vec![],
-            local_tag: None,
-            peer_response: None,
-            created: Created::default(),
-            had_dialog: false,
-            terminate_sent: false,
-            refresh_after: None,
-            refresh_cseq_probe: None,
-            creating_invite: None,
-            fork_response: None,
-            fork_start: None,
-            fork_sent: 0,
-            harness: vec![],
-        };
+        let mut obs = Observed::new();
         let mut keep: Vec<Box<dyn Any>> = vec![];
 
         inject(&endpoint, &tp, peer, &invite_text(&case));
@@ -994,13 +1227,11 @@ pub fn run_uas(case: &UasCase) -> Observed {
                             obs.had_dialog = true;
                             obs.created = do_ops(&endpoint, &dialog, &case.ops, None, &mut keep, &mut obs.harness).await;
                             if case.ops.terminate {
-                                let mut session = session;
-                                tokio::spawn(async move {
-                                    let _ = session.terminate().await;
-                                    session
-                                });
-                                settle().await;
-                                obs.terminate_sent = true;
+                                let mut own_target = TargetTransportInfo {
+                                    via_host_port: None,
+                                    transport: Some((tp.clone(), peer)),
+                                };
+                                terminate_flow(clock, &log, &gate, &endpoint, session, &case.ops.term_faults, &mut own_target, 0, &mut keep, &mut obs).await;
                             } else {
                                 keep.push(Box::new(session));
                             }
@@ -1056,32 +1287,228 @@ fn early_extra() -> Vec<String> {
 /// keeps a value alive in the `keep` list
 struct SendBox<T>(#[allow(dead_code)] T);
 
+// ------------------------------------------------------------------------------------------
+// a transport whose `send` can be held pending
+
+/// Shared state of `GateTp`
+#[derive(Default)]
+pub struct Gate {
+    /// `Some(fail)`: the next `send` call is held until `release`; then it fails / returns
+    armed: parking_lot::Mutex<Option<bool>>,
+    /// the messages whose `send` was held, and whether that call failed
+    held: parking_lot::Mutex<Vec<(Option<WireMsg>, bool)>>,
+    release: tokio::sync::Notify,
+}
+
+impl Gate {
+    fn arm(&self, fail: bool) {
+        *self.armed.lock() = Some(fail);
+    }
+    fn disarm(&self) {
+        *self.armed.lock() = None;
+    }
+    fn held(&self) -> usize {
+        self.held.lock().len()
+    }
+    fn last_held(&self) -> Option<WireMsg> {
+        self.held.lock().last().and_then(|(m, _)| m.clone())
+    }
+}
+
+/// The world's mock datagram transport behind a gate: an armed `send` call stays pending (like a socket that
+/// is not writable) until the test releases it, and then either fails with an io::Error without anything
+/// having reached the wire, or returns Ok (the bytes went out when the call started, so the wire log keeps
+/// the order in which the requests were handed to the transport).  All other calls pass through.
+struct GateTp {
+    inner: TpHandle,
+    gate: Arc<Gate>,
+}
+
+impl std::fmt::Debug for GateTp {
+    fn fmt(&self, f: &mut std::fmt::Formatter<'_>) -> std::fmt::Result {
+        write!(f, "GateTp({:?})", self.inner)
+    }
+}
+impl std::fmt::Display for GateTp {
+    fn fmt(&self, f: &mut std::fmt::Formatter<'_>) -> std::fmt::Result {
+        write!(f, "gate:{}", self.inner)
+    }
+}
+
+#[async_trait::async_trait]
+impl Transport for GateTp {
+    fn name(&self) -> &'static str {
+        self.inner.name()
+    }
+    fn secure(&self) -> bool {
+        self.inner.secure()
+    }
+    fn reliable(&self) -> bool {
+        self.inner.reliable()
+    }
+    fn bound(&self) -> SocketAddr {
+        self.inner.bound()
+    }
+    fn sent_by(&self) -> SocketAddr {
+        self.inner.sent_by()
+    }
+    fn direction(&self) -> Direction {
+        self.inner.direction()
+    }
+    async fn send(&self, message: &[u8], target: SocketAddr) -> std::io::Result<()> {
+        let armed = self.gate.armed.lock().take();
+        match armed {
+            None => self.inner.send(message, target).await,
+            Some(fail) => {
+                if !fail {
+                    self.inner.send(message, target).await?;
+                }
+                self.gate.held.lock().push((WireMsg::parse(message), fail));
+                self.gate.release.notified().await;
+                if fail {
+                    Err(std::io::Error::new(std::io::ErrorKind::ConnectionReset, "c11: injected send failure"))
+                } else {
+                    Ok(())
+                }
+            }
+        }
+    }
+}
+
+/// mock datagram transport of the world behind a gate
+fn gated_datagram(log: &WireLog) -> (TpHandle, Arc<Gate>) {
+    let (inner, _) = mock_datagram(log, "UDP", false, false, "10.0.0.1:5060");
+    let gate = Arc::new(Gate::default());
+    (TpHandle::new(GateTp { inner, gate: gate.clone() }), gate)
+}
+
+/// number of distinct requests on the wire (retransmissions share the Via branch)
+fn count_requests(log: &WireLog) -> usize {
+    let mut seen = HashSet::new();
+    log.parsed()
+        .into_iter()
+        .filter_map(|(_, m)| m)
+        .filter(|m| m.is_request())
+        .filter(|m| seen.insert(m.via_branch()))
+        .count()
+}
+
+/// What the application's other tasks do while a `send` call of ezk is pending: create requests on the shared
+/// dialog and send them (through a transport info of their own - the pending call may hold the dialog's).
+async fn window_requests(
+    endpoint: &Endpoint,
+    dialog: &Dialog,
+    methods: &[u8],
+    own_target: &mut TargetTransportInfo,
+    keep: &mut Vec<Box<dyn Any>>,
+    obs: &mut Observed,
+) {
+    for m in methods {
+        let req = dialog.create_request(method_of(*m));
+        if req.line.method == Method::INVITE {
+            match endpoint.send_invite(req, own_target).await {
+                Ok(tsx) => keep.push(Box::new(tsx)),
+                Err(e) => obs.harness.push(format!("send_invite (while a send was pending): {e}")),
+            }
+        } else {
+            match endpoint.send_request(req, own_target).await {
+                Ok(tsx) => keep.push(Box::new(tsx)),
+                Err(e) => obs.harness.push(format!("send_request (while a send was pending): {e}")),
+            }
+        }
+        obs.window_sent += 1;
+    }
+}
+
+/// `Session::terminate()` under the transport trouble of `faults`: every call runs in a task of its own; while
+/// the `send` of its BYE is pending, other tasks create and send requests on the shared dialog; after a failed
+/// call the application calls `terminate()` again.  `n_before` = requests on the wire before the dialog existed.
+#[allow(clippy::too_many_arguments)]
+async fn terminate_flow(
+    clock: Clock,
+    log: &WireLog,
+    gate: &Gate,
+    endpoint: &Endpoint,
+    mut session: sip_ua::invite::session::Session,
+    faults: &[SendFault],
+    own_target: &mut TargetTransportInfo,
+    n_before: usize,
+    keep: &mut Vec<Box<dyn Any>>,
+    obs: &mut Observed,
+) {
+    let dialog = session.dialog.clone();
+    let mut faults = faults.iter();
+    loop {
+        let fault = faults.next();
+        let held_before = gate.held();
+        if let Some(f) = fault {
+            gate.arm(f.fail);
+        }
+        let h = tokio::spawn(async move {
+            let r = session.terminate().await.map(|_| ()).map_err(|e| e.to_string());
+            (session, r)
+        });
+        settle().await;
+        let Some(f) = fault else {
+            keep.push(Box::new(h));
+            obs.terminate_sent = true;
+            return;
+        };
+        if gate.held() != held_before + 1 {
+            gate.disarm();
+            obs.harness.push("terminate(): the send of the BYE did not reach the transport".into());
+            keep.push(Box::new(h));
+            return;
+        }
+        if f.fail && obs.after_failed_send.is_none() {
+            obs.after_failed_send = Some(count_requests(log) - n_before);
+        }
+        // the BYE is being written: the rest of the application goes on using the dialog
+        window_requests(endpoint, &dialog, &f.during, own_target, keep, obs).await;
+        clock.advance(f.pending_ms as u64).await;
+        settle().await;
+        gate.release.notify_one();
+        settle().await;
+        if !f.fail {
+            // the BYE went out, terminate() now waits for the answer
+            keep.push(Box::new(h));
+            obs.terminate_sent = true;
+            return;
+        }
+        if !h.is_finished() {
+            obs.harness.push("terminate() did not return after the send of its BYE failed".into());
+            keep.push(Box::new(h));
+            return;
+        }
+        match h.await {
+            Ok((s, Err(_))) => session = s,
+            Ok((_, Ok(()))) => {
+                obs.harness.push("terminate() reported success although the send of its BYE failed".into());
+                return;
+            }
+            Err(e) => {
+                obs.harness.push(format!("terminate() task: {e}"));
+                return;
+            }
+        }
+        obs.failed_sends += 1;
+        window_requests(endpoint, &dialog, &f.after, own_target, keep, obs).await;
+        settle().await;
+    }
+}
+
 pub fn run_uac(case: &UacCase) -> Observed {
     let case = case.clone();
     run_world(case.rng as u64, |clock| async move {
         let log = WireLog::new(clock);
-        let (tp, _) = mock_datagram(&log, "UDP", false, false, "10.0.0.1:5060");
+        let (tp, gate) = gated_datagram(&log);
         let mut b = offline_builder();
         let dialog_layer = b.add_layer(DialogLayer::default());
         let invite_layer = b.add_layer(InviteLayer::default());
         b.add_unmanaged_transport(tp.clone());
         let endpoint = b.build();
         let peer: SocketAddr = PEER.parse().unwrap();
-        let mut obs = Observed {
-            wire: vec![],
-            local_tag: None,
-            peer_response: None,
-            created: Created::default(),
-            had_dialog: false,
-            terminate_sent: false,
-            refresh_after: None,
-            refresh_cseq_probe: None,
-            creating_invite: None,
-            fork_response: None,
-            fork_start: None,
-            fork_sent: 0,
-            harness: vec![],
-        };
+        let mut obs = Observed::new();
         let mut keep: Vec<Box<dyn Any>> = vec![];
 
         let built = (|| -> Result<_, String> {
@@ -1110,15 +1537,6 @@ pub fn run_uac(case: &UacCase) -> Observed {
         // the newest INVITE on the wire (retransmissions are copies) and the number of distinct requests
         let last_invite = |log: &WireLog| -> Option<WireMsg> {
             log.parsed().into_iter().filter_map(|(_, m)| m).filter(|m| m.method() == Some("INVITE")).last()
-        };
-        let count_requests = |log: &WireLog| -> usize {
-            let mut seen = HashSet::new();
-            log.parsed()
-                .into_iter()
-                .filter_map(|(_, m)| m)
-                .filter(|m| m.is_request())
-                .filter(|m| seen.insert(m.via_branch()))
-                .count()
         };
         let n_invites = case.prior.len() + 1;
         // what the second branch of a forking proxy answers with
@@ -1363,15 +1781,14 @@ pub fn run_uac(case: &UacCase) -> Observed {
             return obs;
         };
         obs.creating_invite = Some(invite_wire.clone());
-        // half of the cases: the provisional responses above 100 create an EARLY dialog (To-tag, Contact and a
-        // Record-Route list that DIFFERS from the 2xx's): the session's dialog state must come from the 2xx
-        let early_flow = case.rng % 2 == 0 && case.peer_provisionals.iter().any(|c| *c > 100);
+        // half of the cases: the provisional responses above 100 create an EARLY dialog (To-tag, a Contact and a
+        // Record-Route list that are related to the 2xx's in one of several ways): the session's dialog state
+        // must come from the 2xx
+        let early_flow = early_flow(&case);
+        let mut early_extra = vec![format!("Contact: {}", early_contact_value(case.early_contact, &case.peer_contact))];
+        early_extra.extend(rr_lines(&early_rr_values(case.early_rr, &case.rr), 0, "Record-Route"));
         for code in &case.peer_provisionals {
             if early_flow && *code > 100 {
-                let early_extra = vec![
-                    "Contact: <sip:early-only@192.0.2.250:5999>".to_string(),
-                    "Record-Route: <sip:early-only-proxy.example.com;lr>".to_string(),
-                ];
                 inject(&endpoint, &tp, peer, &response_text(&invite_wire, *code, Some(&case.to_tag), &early_extra));
             } else {
                 inject(&endpoint, &tp, peer, &response_text(&invite_wire, *code, None, &[]));
@@ -1466,8 +1883,14 @@ pub fn run_uac(case: &UacCase) -> Observed {
         }
 
         let mut session = Some(session);
+        // what the application's other tasks send through while a send of ezk holds the dialog's transport info
+        let mut own_target = TargetTransportInfo {
+            via_host_port: None,
+            transport: Some((tp.clone(), peer)),
+        };
         let refresh_first = matches!(case.refresh, Some((_, true)));
         if !refresh_first {
+            obs.ops_start = count_requests(&log) - n_invites;
             obs.created = do_ops(&endpoint, &dialog, &case.ops, None, &mut keep, &mut obs.harness).await;
             settle().await;
         }
@@ -1475,33 +1898,74 @@ pub fn run_uac(case: &UacCase) -> Observed {
             let before = count_requests(&log);
             obs.refresh_after = Some(before - n_invites);
             let mut s = session.take().unwrap();
+            // transport trouble for the re-INVITE: its `send` stays pending, then fails (the application runs the
+            // refresh again at once) or returns late
+            let fault = case.refresh_fault.clone();
+            let held_before = gate.held();
+            if let Some(f) = &fault {
+                gate.arm(f.fail);
+            }
+            let retry = fault.as_ref().map_or(false, |f| f.fail);
             let h = tokio::spawn(async move {
-                let r = match tokio::time::timeout(Duration::from_secs(se as u64 + 60), s.drive()).await {
-                    Ok(Ok(Event::RefreshNeeded(ev))) => ev.process_default().await.map_err(|e| format!("process_default: {e}")),
-                    Ok(Ok(_)) => Err("drive returned another event than RefreshNeeded".to_string()),
-                    Ok(Err(e)) => Err(format!("drive: {e}")),
-                    Err(_) => Err("no RefreshNeeded within session-expires + 60 s".to_string()),
+                let first = match tokio::time::timeout(Duration::from_secs(se as u64 + 60), s.drive()).await {
+                    Ok(Ok(Event::RefreshNeeded(ev))) => ev.process_default().await.map_err(|e| (true, format!("process_default: {e}"))),
+                    Ok(Ok(_)) => Err((false, "drive returned another event than RefreshNeeded".to_string())),
+                    Ok(Err(e)) => Err((false, format!("drive: {e}"))),
+                    Err(_) => Err((false, "no RefreshNeeded within session-expires + 60 s".to_string())),
+                };
+                let r = match first {
+                    Err((true, _)) if retry => sip_ua::invite::session::RefreshNeeded { session: &mut s }
+                        .process_default()
+                        .await
+                        .map_err(|e| format!("process_default (second run): {e}")),
+                    other => other.map_err(|(_, e)| e),
                 };
                 (s, r)
             });
             // wait (virtual time) for the refresh re-INVITE
             let mut reinvite = None;
+            let mut appeared = false;
             let before_len = log.len();
             for _ in 0..(se as u64 + 62) {
                 clock.advance(1000).await;
                 settle().await;
                 // (nothing else is being polled: the only new message can be the re-INVITE)
-                if log.len() > before_len && count_requests(&log) > before {
-                    reinvite = log
-                        .parsed()
-                        .into_iter()
-                        .filter_map(|(_, m)| m)
-                        .filter(|m| m.method() == Some("INVITE"))
-                        .last();
+                if (log.len() > before_len && count_requests(&log) > before) || gate.held() > held_before {
+                    appeared = true;
                     break;
                 }
                 if h.is_finished() {
                     break;
+                }
+            }
+            let mut window = 0;
+            if appeared {
+                if let Some(f) = &fault {
+                    if gate.held() == held_before + 1 {
+                        if f.fail {
+                            obs.after_failed_send = Some(count_requests(&log) - n_invites);
+                        }
+                        // the re-INVITE is being written: the rest of the application goes on using the dialog
+                        window_requests(&endpoint, &dialog, &f.during, &mut own_target, &mut keep, &mut obs).await;
+                        window = f.during.len();
+                        clock.advance(f.pending_ms as u64).await;
+                        settle().await;
+                        gate.release.notify_one();
+                        settle().await;
+                        if f.fail {
+                            obs.failed_sends += 1;
+                        }
+                    } else {
+                        gate.disarm();
+                        obs.harness.push("refresh flow: the send of the re-INVITE was not held".into());
+                    }
+                }
+                // position of the re-INVITE among the distinct requests on the wire: after the requests of the
+                // window when its first send failed, before them when it was merely slow
+                let at = before + if retry { window } else { 0 };
+                reinvite = created_requests(&log.parsed()).get(at).cloned().filter(|m| m.method() == Some("INVITE"));
+                if retry && gate.last_held().map_or(true, |m| m.method() != Some("INVITE")) {
+                    obs.harness.push("refresh flow: the held send was not the re-INVITE".into());
                 }
             }
             match reinvite {
@@ -1515,6 +1979,9 @@ pub fn run_uac(case: &UacCase) -> Observed {
                     if let (Some(during), Some(after)) = (during, after) {
                         obs.refresh_cseq_probe = Some((during, after));
                     }
+                    // the ACK is the newest request on the wire
+                    let re_pos = before - n_invites + if retry { window } else { 0 };
+                    obs.refresh_pos = Some((re_pos, count_requests(&log) - n_invites - 1));
                     keep.push(Box::new(h));
                 }
                 None => match h.await {
@@ -1524,17 +1991,13 @@ pub fn run_uac(case: &UacCase) -> Observed {
             }
         }
         if refresh_first {
+            obs.ops_start = count_requests(&log) - n_invites;
             obs.created = do_ops(&endpoint, &dialog, &case.ops, None, &mut keep, &mut obs.harness).await;
             settle().await;
         }
-        if let Some(mut s) = session.take() {
+        if let Some(s) = session.take() {
             if case.ops.terminate {
-                tokio::spawn(async move {
-                    let _ = s.terminate().await;
-                    s
-                });
-                settle().await;
-                obs.terminate_sent = true;
+                terminate_flow(clock, &log, &gate, &endpoint, s, &case.ops.term_faults, &mut own_target, n_invites, &mut keep, &mut obs).await;
             } else {
                 keep.push(Box::new(s));
             }
@@ -1573,12 +2036,25 @@ fn created_requests(wire: &[(Sent, Option<WireMsg>)]) -> Vec<WireMsg> {
         .collect()
 }
 
+/// positions in the list of created requests that the flow recorded
+#[derive(Default, Clone, Copy, Debug)]
+pub struct Marks {
+    /// first request created after a `send` call of ezk failed (a request ezk could not send never reached the
+    /// wire and is not in the list): a CSeq that does not increase from here on is reported under a name of its own
+    pub after_failed_send: Option<usize>,
+    /// (refresh re-INVITE, its ACK): the ACK is judged against that INVITE even when other INVITEs were created
+    /// in between
+    pub refresh_pos: Option<(usize, usize)>,
+}
+
 /// Judge the requests created inside the dialog: `reqs` = created requests on the wire in creation order;
 /// `reqs[ops_start .. ops_start + created.sent]` are the ones of `do_ops` (when they were created on
 /// threads, their CSeq numbers are judged from `created.per_thread`, which also holds the filler requests).
 /// `earlier` = CSeq numbers of earlier, rejected attempts of the dialog-creating INVITE (UAC; only used to name
 /// a failure, see `CSeqTracker::earlier_attempts`).
-fn judge_requests(role: Role, dialog: &RefDialog, reqs: &[WireMsg], ops_start: usize, created: &Created, earlier: &[u32], out: &mut CaseOut) {
+/// `marks` = positions in `reqs` the flow recorded (see `Marks`).
+#[allow(clippy::too_many_arguments)]
+fn judge_requests(role: Role, dialog: &RefDialog, reqs: &[WireMsg], ops_start: usize, created: &Created, earlier: &[u32], marks: &Marks, out: &mut CaseOut) {
     let r = role.name();
     for m in reqs {
         for (locus, detail) in dialog.check_request(m) {
@@ -1646,14 +2122,54 @@ fn judge_requests(role: Role, dialog: &RefDialog, reqs: &[WireMsg], ops_start: u
             continue;
         }
         let m = &reqs[i];
-        let ack_for = if m.method() == Some("ACK") { last_invite } else { None };
+        let ack_for = if m.method() == Some("ACK") {
+            match marks.refresh_pos {
+                Some((re, ack)) if ack == i => reqs.get(re).and_then(|m| m.cseq()).map(|c| c.0).or(last_invite),
+                _ => last_invite,
+            }
+        } else {
+            None
+        };
         for (locus, detail) in tr.next(m, ack_for) {
+            if locus == "not-increasing" && marks.after_failed_send.map_or(false, |at| i >= at) {
+                out.fail(
+                    format!("c11.cseq/{r}-not-increasing-after-failed-send"),
+                    format!("{} {detail} (a send of an earlier request of the dialog had failed; requests since then: {:?})", m.start, reqs[marks.after_failed_send.unwrap_or(i)..=i].iter().map(|m| format!("{} CSeq {}", m.method().unwrap_or("?"), m.header("cseq").unwrap_or("?"))).collect::<Vec<_>>()),
+                );
+                continue;
+            }
             out.fail(format!("c11.cseq/{r}-{locus}"), format!("{} {detail}", m.start));
         }
         if m.method() == Some("INVITE") {
             last_invite = m.cseq().map(|c| c.0);
         }
         i += 1;
+    }
+}
+
+/// classes of the transport trouble a flow went through (`bye`: Session::terminate, else the refresh re-INVITE)
+fn fault_classes(bye: bool, faults: &[SendFault], out: &mut CaseOut) {
+    for f in faults {
+        out.class(match (bye, f.fail) {
+            (true, true) => "terminate-bye-send-failed-then-repeated",
+            (true, false) => "terminate-bye-send-returned-late",
+            (false, true) => "refresh-reinvite-send-failed-then-repeated",
+            (false, false) => "refresh-reinvite-send-returned-late",
+        });
+        if !f.during.is_empty() {
+            out.class(match (bye, f.fail) {
+                (true, true) => "terminate-bye-send-failed+requests-created-meanwhile",
+                (true, false) => "terminate-bye-send-late+requests-created-meanwhile",
+                (false, true) => "refresh-reinvite-send-failed+requests-created-meanwhile",
+                (false, false) => "refresh-reinvite-send-late+requests-created-meanwhile",
+            });
+        }
+        if f.fail && !f.after.is_empty() {
+            out.class("terminate-bye-send-failed+requests-created-before-repeating");
+        }
+    }
+    if faults.iter().filter(|f| f.fail).count() >= 2 {
+        out.class("terminate-bye-send-failed-twice");
     }
 }
 
@@ -1780,7 +2296,7 @@ pub fn check_uas(case: &UasCase, out: &mut CaseOut) {
     };
 
     let reqs = created_requests(&obs.wire);
-    let want_n: usize = obs.created.sent + obs.terminate_sent as usize;
+    let want_n: usize = obs.created.sent + obs.terminate_sent as usize + obs.window_sent;
     if reqs.len() != want_n && obs.harness.is_empty() {
         out.fail(
             "c11.harness/uas-request-count",
@@ -1789,8 +2305,13 @@ pub fn check_uas(case: &UasCase, out: &mut CaseOut) {
     }
     if obs.terminate_sent {
         out.class("session-terminate-bye");
+        fault_classes(true, &case.ops.term_faults, out);
     }
-    judge_requests(Role::Uas, &dialog, &reqs, 0, &obs.created, &[], out);
+    let marks = Marks {
+        after_failed_send: obs.after_failed_send,
+        refresh_pos: None,
+    };
+    judge_requests(Role::Uas, &dialog, &reqs, 0, &obs.created, &[], &marks, out);
 
     out.note = Some(format!(
         "local_tag={:?} route_set={:?} target={} | {}",
@@ -1824,6 +2345,42 @@ pub fn check_uac(case: &UacCase, out: &mut CaseOut) {
     }
     if case.code != 200 {
         out.class("peer-2xx-other-than-200");
+    }
+    if early_flow(case) {
+        out.class("early-dialog-confirmed-by-2xx");
+        // how the 1xx's Contact URI relates to the 2xx's (judged on the texts, not on the selector)
+        let uri_of = |v: &str| rd::parse_name_addr(v).and_then(|n| rd::split_uri(&n.uri));
+        match (uri_of(&early_contact_value(case.early_contact, &case.peer_contact)), uri_of(&case.peer_contact)) {
+            (Some(e), Some(f)) => {
+                let same_addr = e.scheme == f.scheme && e.user == f.user && e.host == f.host && e.port == f.port;
+                out.class(if e == f {
+                    "early-contact-same-uri-as-2xx"
+                } else if same_addr {
+                    "early-contact-differs-from-2xx-in-uri-parameters-only"
+                } else if e.host == f.host {
+                    "early-contact-differs-from-2xx-in-user-or-port"
+                } else {
+                    "early-contact-unrelated-to-2xx"
+                });
+            }
+            _ => out.class("early-contact-unreadable"),
+        }
+        let early_rr = early_rr_values(case.early_rr, &case.rr);
+        out.class(if early_rr.is_empty() && case.rr.is_empty() {
+            "early-rr-none,2xx-none"
+        } else if early_rr.is_empty() {
+            "early-rr-none,2xx-some"
+        } else if case.rr.is_empty() {
+            "early-rr-some,2xx-none"
+        } else if rd::route_list_equal(&early_rr, &case.rr) {
+            "early-rr-same-as-2xx"
+        } else if early_rr.len() == case.rr.len() {
+            "early-rr-2xx-list-reordered"
+        } else if early_rr.len() > case.rr.len() {
+            "early-rr-longer-than-2xx"
+        } else {
+            "early-rr-shorter-than-2xx"
+        });
     }
 
     match case.prior.len() {
@@ -1912,7 +2469,7 @@ pub fn check_uac(case: &UacCase, out: &mut CaseOut) {
         _ => (after_invites, vec![]),
     };
     let refresh_n = if obs.refresh_after.is_some() { 2 } else { 0 };
-    let want_n: usize = obs.created.sent + obs.terminate_sent as usize + refresh_n;
+    let want_n: usize = obs.created.sent + obs.terminate_sent as usize + refresh_n + obs.window_sent;
     if (reqs.len() != want_n || fork_reqs.len() != obs.fork_sent) && obs.harness.is_empty() {
         out.fail(
             "c11.harness/uac-request-count",
@@ -1934,32 +2491,58 @@ pub fn check_uac(case: &UacCase, out: &mut CaseOut) {
             );
         }
     }
-    if let Some(pos) = obs.refresh_after {
+    if obs.refresh_after.is_some() {
         out.class("refresh-reinvite+ack");
-        // shape of the refresh flow: re-INVITE then its ACK at position pos, pos+1
-        match (reqs.get(pos).and_then(|m| m.method()), reqs.get(pos + 1).and_then(|m| m.method())) {
-            (Some("INVITE"), Some("ACK")) => {}
-            (a, b) => {
+        // shape of the refresh flow: the re-INVITE and its ACK at the recorded positions
+        match obs.refresh_pos {
+            Some((re, ack)) => match (reqs.get(re).and_then(|m| m.method()), reqs.get(ack).and_then(|m| m.method())) {
+                (Some("INVITE"), Some("ACK")) => {}
+                (a, b) => {
+                    if obs.harness.is_empty() {
+                        out.fail("c11.harness/uac-refresh-shape", format!("expected re-INVITE at {re}, ACK at {ack}; found {a:?}, {b:?}"));
+                    }
+                }
+            },
+            None => {
                 if obs.harness.is_empty() {
-                    out.fail("c11.harness/uac-refresh-shape", format!("expected re-INVITE, ACK at {pos}; found {a:?}, {b:?}"));
+                    out.fail("c11.harness/uac-refresh-shape", "the refresh flow did not record its re-INVITE".to_string());
                 }
             }
         }
     }
     if obs.terminate_sent {
         out.class("session-terminate-bye");
+        fault_classes(true, &case.ops.term_faults, out);
     }
-    // the refresh pair comes first when it ran before the ops
-    let ops_start = match (obs.refresh_after, case.refresh) {
-        (Some(0), Some((_, true))) => 2,
-        _ => 0,
+    if obs.refresh_pos.is_some() {
+        fault_classes(false, case.refresh_fault.as_slice(), out);
+    }
+    let marks = Marks {
+        after_failed_send: obs.after_failed_send,
+        refresh_pos: obs.refresh_pos,
     };
-    judge_requests(Role::Uac, &dialog, &reqs, ops_start, &obs.created, &earlier, out);
+    judge_requests(Role::Uac, &dialog, &reqs, obs.ops_start, &obs.created, &earlier, &marks, out);
+    // a Request-URI that is not the remote target but the Contact of the 1xx that created the early dialog: the
+    // confirmed dialog kept the early dialog's remote target - a root cause of its own, named so
+    if early_flow(case) {
+        let early_uri = rd::parse_name_addr(&early_contact_value(case.early_contact, &case.peer_contact)).map(|n| n.uri);
+        let kept = early_uri.map_or(false, |e| {
+            reqs.iter().any(|m| {
+                let ruri = m.request_uri().unwrap_or("");
+                rd::uri_equal(ruri, &e, rd::UriCtx::Full) && !rd::uri_equal(ruri, &dialog.remote_target, rd::UriCtx::Full)
+            })
+        });
+        if kept {
+            for f in out.failures.iter_mut().filter(|f| f.sig == "c11.req/uac-request-uri") {
+                f.sig = "c11.req/uac-request-uri-is-contact-of-early-1xx".into();
+            }
+        }
+    }
 
     // ---- the second dialog of a forked INVITE: same request, its own 2xx ----
     if let (Some(f), Some(fork_response)) = (&case.fork, &obs.fork_response) {
         if obs.fork_start.is_some() {
-            common_classes(&f.rr, 0, &f.peer_contact, &Ops { methods: f.methods.clone(), threads: false, terminate: false }, out);
+            common_classes(&f.rr, 0, &f.peer_contact, &Ops { methods: f.methods.clone(), threads: false, terminate: false, term_faults: vec![] }, out);
             match RefDialog::from_wire(Role::Uac, &invite, fork_response) {
                 Ok(d2) => {
                     let mut sub = CaseOut {
@@ -1972,7 +2555,7 @@ pub fn check_uac(case: &UacCase, out: &mut CaseOut) {
                         sent: fork_reqs.len(),
                         per_thread: vec![],
                     };
-                    judge_requests(Role::Uac, &d2, &fork_reqs, 0, &created2, &earlier, &mut sub);
+                    judge_requests(Role::Uac, &d2, &fork_reqs, 0, &created2, &earlier, &Marks::default(), &mut sub);
                     // one root cause, one signature: what already failed in the first dialog is not repeated
                     for f in sub.failures {
                         if !out.failures.iter().any(|o| o.sig == f.sig) {
@@ -2007,13 +2590,15 @@ pub fn property() -> Property {
     Property {
         fuzz: vec![],
         id: "C11",
-        rule: "cases = dialog-creating INVITE/2xx pairs (0..4 Record-Route values with distinct URIs, lr/other/header parameters, one or several header lines; random tags; Contact with URI and header parameters, display names, addr-spec form; From/To with display names) in both roles - UAS: peer INVITE injected, Dialog::new_server (directly with ServerInvTsx, or through Acceptor/Session), responses for provisional/2xx/failure codes through create_response; UAC: ClientDialogBuilder + send_invite, or Initiator/Session, 0..3 earlier attempts of the INVITE through the same builder that the peer rejects (401/407/422/3xx/other failures, with/without To-tag, optionally after an early dialog; the repeated INVITE optionally edited, its CSeq optionally raised through ClientDialogBuilder.local_cseq), then the peer answers 2xx, optionally a second 2xx from another fork branch (second dialog, 1..3 requests of its own) - followed by 1..10 create_request calls over BYE/INFO/INVITE/PRACK/UPDATE/MESSAGE (optionally from 4 OS threads), Session::terminate, and the session-refresh re-INVITE + ACK. Non-trivial = at least 2 Record-Route entries, or UAC role with a request after the INVITE, or a provisional (>100)/failure response; distinct by hash of the case.",
+        rule: "cases = dialog-creating INVITE/2xx pairs (0..4 Record-Route values with distinct URIs, lr/other/header parameters, one or several header lines; random tags; Contact with URI and header parameters, display names, addr-spec form; From/To with display names) in both roles - UAS: peer INVITE injected, Dialog::new_server (directly with ServerInvTsx, or through Acceptor/Session), responses for provisional/2xx/failure codes through create_response; UAC: ClientDialogBuilder + send_invite, or Initiator/Session, 0..3 earlier attempts of the INVITE through the same builder that the peer rejects (401/407/422/3xx/other failures, with/without To-tag, optionally after an early dialog; the repeated INVITE optionally edited, its CSeq optionally raised through ClientDialogBuilder.local_cseq), then the peer answers 2xx, optionally a second 2xx from another fork branch (second dialog, 1..3 requests of its own) - through the Initiator optionally after an early dialog (1xx with the 2xx's To-tag, a Contact that is the 2xx's / differs from it only in URI parameters / in user or port / is unrelated, and a Record-Route list that is the 2xx's / its reverse / a prefix / a superset / absent / unrelated) - followed by 1..10 create_request calls over BYE/INFO/INVITE/PRACK/UPDATE/MESSAGE (optionally from 4 OS threads), Session::terminate, and the session-refresh re-INVITE + ACK; the Transport::send call of the terminate BYE (0..2 times in a row) or of the refresh re-INVITE optionally stays pending 1..400 ms and then fails (the application repeats terminate / process_default) or returns late, while other tasks create and send 0..3 requests on the shared dialog meanwhile and 0..2 before the repetition. Non-trivial = at least 2 Record-Route entries, or UAC role with a request after the INVITE, or a provisional (>100)/failure response; distinct by hash of the case.",
         assumptions: vec![
             "requests and responses are read from the mock wire with the independent reader; the dialog is rebuilt by refmodel::ref_dialog from the texts only",
             "ezk's random tags / Call-ID / CSeq base are read back (wire, Dialog.local_fromto.tag), never predicted",
             "From/To URIs are generated without port/maddr/ttl/transport/lr/headers and compared modulo them (RFC 3261 Table 1)",
             "route entries without lr: the loose form (Request-URI = remote target, Route = route set) and the strict-routing rewrite are both accepted",
-            "display names and the Contact of created requests are not compared; peer provisionals carry no To-tag (early dialogs belong to C13)",
+            "display names and the Contact of created requests are not compared; requests are only created in CONFIRMED dialogs (what an early dialog may send belongs to C13); an early dialog appears only as the history of a session (Initiator) and of rejected attempts",
+            "a request whose Transport::send call failed never reached the peer: it is not part of the judged CSeq sequence (its number may be used again); requests the application's other tasks created meanwhile are sent at once through a TargetTransportInfo of their own, so the wire log holds every judged request in creation order",
+            "after a failed send the application repeats the operation on the same Session (terminate() again; RefreshNeeded{session}.process_default() again - the struct and its field are pub); a failing send is a transient io::Error of a datagram transport",
             "the ACK for the 2xx of the dialog-creating INVITE is never produced by ezk's public API (create_ack is private and only used by RefreshNeeded::process_default): the ACK rule is checked on the session-refresh re-INVITE of a UAC-side Session",
             "OS threads are used only for Dialog::create_request (atomic CSeq counter); everything else runs on the single-threaded simulation",
             "generated tags are tokens without '%': ezk percent-decodes header parameters, so a remote tag a%41b comes back as aAb (open finding, signature c11.req/<role>-to-tag-percent-decoded, replays in the builder's findings directory); excluded by construction",
